@@ -482,7 +482,24 @@ func Gen(seed uint64, prop, tier string) *Spec {
 			if fi == 0 && r.Chance(3, 4) {
 				fi = r.Range(1, len(s.Files)-1)
 			}
-			s.Faults = append(s.Faults, simenv.ReadFault{Loc: fmt.Sprintf("file:%d", fi), Kind: simfw.Pick(r, []string{"enoent", "eio", "torn", "http5xx", "http_reset", "http_short"}), Nth: r.Intn(3), Cut: r.Range(1, 200)})
+			kinds := []string{"enoent", "eio", "torn", "http5xx", "http_reset", "http_short"}
+			if strings.HasPrefix(AbsLoc(s, fi), "http") {
+				kinds = []string{"http5xx", "http_reset", "http_short", "http_short", "torn", "eio"} // what connections do
+			}
+			// (cut points anywhere in the file: a long prefix may hold everything the loader looks for)
+			s.Faults = append(s.Faults, simenv.ReadFault{Loc: fmt.Sprintf("file:%d", fi), Kind: simfw.Pick(r, kinds), Nth: r.Intn(3), Cut: simfw.Pick(r, []int{r.Range(1, 200), r.Range(200, 1500), r.Range(1500, 6000), -1})})
+		}
+	}
+	// a response that breaks off is most telling when what did arrive parses and when somebody asks again
+	for _, f := range s.Faults {
+		var fi int
+		if (f.Kind == "http_short" || f.Kind == "http_reset") && len(s.Files) > 1 {
+			if _, err := fmt.Sscanf(f.Loc, "file:%d", &fi); err == nil && fi > 0 && fi < len(s.Files) {
+				s.Files[fi].YAML = true
+				if r.Bool() {
+					s.Reuse = true
+				}
+			}
 		}
 	}
 	if r.Chance(1, 8) && len(s.Files) > 1 {
@@ -547,6 +564,31 @@ func Gen(seed uint64, prop, tier string) *Spec {
 					}}
 				}
 			}
+		}
+	}
+	// a deliberate cycle of whole-file path items: the root mounts a path-item file whose operation
+	// has a callback whose path item is that same file again
+	if r.Chance(1, 4) {
+		for p := 1; p < len(s.Files); p++ {
+			if s.Files[p].Kind != "single:pathItem" {
+				continue
+			}
+			pdoc, ok := s.Files[p].Doc.(map[string]any)
+			if !ok {
+				break
+			}
+			g.cur = p
+			pdoc["post"] = map[string]any{
+				"responses": map[string]any{"201": map[string]any{"description": "subscribed"}},
+				"callbacks": map[string]any{"again": map[string]any{"{$request.body#/url}": map[string]any{"$ref": g.ref(p, p, "")}}},
+			}
+			g.cur = 0
+			if rdoc, ok := s.Files[0].Doc.(map[string]any); ok {
+				if paths, ok := rdoc["paths"].(map[string]any); ok {
+					paths["/cycle"] = map[string]any{"$ref": g.ref(0, p, "")}
+				}
+			}
+			break
 		}
 	}
 	return s
